@@ -21,22 +21,25 @@ import (
 
 // shrinkHistory removes arrivals from a failing history as long as the same
 // failure class remains (delta debugging over chunks of halving size).
+// shrinkBudget bounds the work (arrivals re-run) all shrinking of one run may spend: a change that breaks
+// many long histories must not turn the check into a long-running job.
+var shrinkBudget = 12_000_000
+
 func shrinkHistory(table []segVal, hist []int, class string) []int {
 	fails := func(h []int) bool {
 		c, _, _, _ := judge(table, h, runCombine(table, h))
 		return c == class
 	}
 	cur := hist
-	work := 0
-	for chunk := (len(cur) + 1) / 2; chunk >= 1 && work < 40_000_000; {
+	for chunk := (len(cur) + 1) / 2; chunk >= 1 && shrinkBudget > 0; {
 		removed := false
-		for start := 0; start < len(cur) && work < 40_000_000; {
+		for start := 0; start < len(cur) && shrinkBudget > 0; {
 			end := start + chunk
 			if end > len(cur) {
 				end = len(cur)
 			}
 			cand := append(append([]int(nil), cur[:start]...), cur[end:]...)
-			work += len(cand) + 1
+			shrinkBudget -= len(cand) + 1
 			if len(cand) > 0 && fails(cand) {
 				cur, removed = cand, true
 			} else {
@@ -80,6 +83,10 @@ func judgeBig(r *Run, table []segVal, hist []int, obs combineObs, what string) b
 	class, _, _, _ := judge(table, hist, obs)
 	if class == "" {
 		return true
+	}
+	if r.failSeen[class] >= 2 {
+		r.failSeen[class]++ // already reported with a concrete input: counted, not shrunk again
+		return false
 	}
 	small := shrinkHistory(table, hist, class)
 	t, h := compactHistory(table, small)
